@@ -50,7 +50,8 @@ func (s optSpec) goCompatible() bool {
 }
 
 func randOpt(r *lib.Rng) optSpec {
-	s := optSpec{UseTags: r.Bool(), KeyExact: r.Bool(), NestEmbed: r.Intn(3) == 0, BytesAs: r.Intn(3)}
+	s := optSpec{UseTags: r.Bool(), KeyExact: r.Bool(), NestEmbed: r.Intn(3) == 0,
+		BytesAs: lib.Pick(r, []int{0, ojg.BytesAsString, ojg.BytesAsBase64, ojg.BytesAsArray})}
 	switch r.Intn(4) {
 	case 0:
 		s.CreateKey = "^"
@@ -119,12 +120,12 @@ func outcome(e *encoder, v any, o *ojg.Options) string {
 	}
 	var tree any
 	if e.sen {
-		tree, err = sen.Parse([]byte(text))
+		tree, err = (&sen.Parser{}).Parse([]byte(text))
 	} else {
-		tree, err = oj.Parse([]byte(text))
+		tree, err = (&oj.Parser{}).Parse([]byte(text))
 	}
 	if err != nil {
-		return "unparsable:" + text
+		return "unparsable:" + err.Error() + ":" + text
 	}
 	return canonOf(tree)
 }
@@ -134,7 +135,7 @@ func jsonOutcome(v any) string {
 	if err != nil {
 		return "fail"
 	}
-	tree, err := oj.Parse(b)
+	tree, err := (&oj.Parser{}).Parse(b)
 	if err != nil {
 		return "unparsable:" + string(b)
 	}
@@ -150,7 +151,7 @@ func goCompatibleType(d *TDesc) bool {
 		return goCompatibleType(d.Elem)
 	case "struct":
 		for _, f := range d.Fields {
-			if f.Type.Kind == "string" && strings.Contains(f.Tag, ",string") {
+			if strings.Contains(f.Tag, ",string") && !(f.Type.Kind == "bool" || f.Type.Kind == "int" || f.Type.Kind == "f32" || f.Type.Kind == "f64") {
 				return false
 			}
 			if !goCompatibleType(f.Type) {
